@@ -22,4 +22,16 @@ PLAN = {
         quick=[dict(test="TestC03", cases=12000, shards=8, timeout=600)],
         thorough=[dict(test="TestC03", cases=1200000, shards=16, timeout=3000, shrink=120)],
     ),
+    "C20": dict(
+        level="exploration",
+        rule=("(A) inputs a peer can send: (i) a message of any registered type filled by reflection with extreme/absent values, marshalled and mutated at the "
+              "protobuf wire level (fields dropped, emptied, duplicated, replaced by hostile text), wrapped in a tx and run through TxDecoder, every message's "
+              "ValidateBasic, signer extraction and the ante handler in CheckTx mode; (ii) raw tx bytes; (iii) precompile call data: every method selector of both "
+              "precompiles with arbitrary, word-shaped, truncated and length-lying tails through a real EVM tx; (iv) hostile strings into the target/address parsers. "
+              "Oracle: no panic (a panic recovered by baseapp/ante as ErrPanic counts as a panic). non-trivial = the input was decoded into typed messages / reached a "
+              "method selector / parser; distinct = distinct (kind, type or method, outcome class). (B) see fee_rule keys."),
+        assumptions=["Must*-style helpers that panic by contract are only reached with validated input (they are not called directly)"],
+        quick=[dict(test="TestC20A", cases=24000, shards=8, timeout=600)],
+        thorough=[dict(test="TestC20A", cases=960000, shards=16, timeout=3000, shrink=120)],
+    ),
 }
